@@ -102,17 +102,26 @@ def scanner_facts(fn: FunctionInfo, preallocated: bool) -> dict:
         if isinstance(n, (ast.Assign, ast.AnnAssign, ast.NamedExpr)) and getattr(n, "value", None) is find:
             tg = n.targets[0] if isinstance(n, ast.Assign) else n.target
             sepidx = tg.id if isinstance(tg, ast.Name) else None
+    # (also in a private helper that the scanner hands the match to through namesake arguments: `return self.__consume(buffer, separator, sepidx, ...)`)
+    from sa.norm import nodes_inl, private_helper
     cands = []
-    for n in own_nodes(fn.node):
+    for n, owner in nodes_inl(fn):
+        if owner is not fn:
+            call = next((c for c in own_nodes(fn.node) if isinstance(c, ast.Call) and private_helper(fn, c) is owner), None)
+            ps = [x.arg for x in owner.params()]
+            if owner.cls is not None and ps and not owner.has_decorator("staticmethod"):
+                ps = ps[1:]
+            if call is None or call.keywords or not all(isinstance(a_, ast.Name) and i_ < len(ps) and a_.id == ps[i_] for i_, a_ in enumerate(call.args)):
+                continue
         if isinstance(n, (ast.Assign, ast.AnnAssign)) and getattr(n, "value", None) is not None:
-            cands.append(n.value)
+            cands.append((n.value, owner))
         if isinstance(n, ast.Return) and n.value is not None:
-            cands += list(n.value.elts) if isinstance(n.value, ast.Tuple) else [n.value]
+            cands += [(x, owner) for x in (list(n.value.elts) if isinstance(n.value, ast.Tuple) else [n.value])]
         if isinstance(n, ast.Subscript) and isinstance(n.slice, ast.Slice):
-            cands += [x for x in (n.slice.lower, n.slice.upper) if x is not None]
+            cands += [(x, owner) for x in (n.slice.lower, n.slice.upper) if x is not None]
     post_ok = False
-    for e in cands:
-        lin = lin_resolved(fn, e)
+    for e, owner in cands:
+        lin = lin_resolved(owner, e)
         if lin is None or sepidx is None:
             continue
         rr = {}
@@ -592,7 +601,8 @@ def check_ws(eng, run):
                 except Exception:  # noqa: BLE001
                     ws = None
     fn = cls.methods.get("raw_parse")
-    matches = [n for n in own_nodes(fn.node) if isinstance(n, ast.Match)] if fn else []
+    from sa.norm import match_views
+    matches = match_views(fn.node) if fn else []
     if ws is None or len(matches) != 1:
         run.ob("C01.ws", "_JSONParser:whitespace-tables-agree", True, evaluated=False, reason="splitter pattern / framer dispatch not in an evaluable shape: rule skipped")
         return
@@ -798,7 +808,8 @@ def check_esc(eng, run):
     # the framer consults it with the prefix ending at the quote
     ok = False
     alias = {fn.name} | {t.id for a in own_nodes(rp.node) if isinstance(a, ast.Assign) and (dotted(a.value) or "").endswith("." + fn.name) for t in a.targets if isinstance(t, ast.Name)}
-    for m in [x for x in own_nodes(rp.node) if isinstance(x, ast.Match)]:
+    from sa.norm import match_views
+    for m in match_views(rp.node):
         for case in m.cases:
             if isinstance(case.pattern, ast.MatchValue) and ast.unparse(case.pattern.value) in ("b'\"'",):
                 g = case.guard
@@ -819,21 +830,22 @@ def run(eng, run):
     from sa.anchors import verify as _verify_anchor_names
     _verify_anchor_names(eng, run)
     run.not_decided += NOT_DECIDED
-    check_ws(eng, run)
-    check_scan(eng, run)
-    check_rem(eng, run)
-    check_inj(eng, run)
-    check_consume_once(eng, run)
-    check_tbl(eng, run)
-    check_copy(eng, run)
-    check_esc(eng, run)
-    check_json_close(eng, run)
-    check_stapled_dispatch(eng, run)
-    check_transport_side(eng, run)
+    run.attempt(check_ws, eng, run)
+    run.attempt(check_scan, eng, run)
+    run.attempt(check_rem, eng, run)
+    run.attempt(check_inj, eng, run)
+    run.attempt(check_consume_once, eng, run)
+    run.attempt(check_tbl, eng, run)
+    run.attempt(check_copy, eng, run)
+    run.attempt(check_esc, eng, run)
+    run.attempt(check_json_close, eng, run)
+    run.attempt(check_stapled_dispatch, eng, run)
+    run.attempt(check_transport_side, eng, run)
     from rules.c05 import check_codec
     from sa.report import RuleAlias
-    check_codec(eng, RuleAlias(run, "C01.tbl"))
+    run.attempt(check_codec, eng, RuleAlias(run, "C01.tbl"))
     run.tables["remainder_exceptions"] = REM_EXCEPTIONS
+    run.end_of_rules()
 
 
 # ---------------------------------------------------------------------------------------------- self-test corpus
